@@ -136,6 +136,13 @@ def exec_c02(cfg, devs):
                     dev.params[2].value = 7.25
                     ex.env.links[-1].inject(*dev.value_updated_packet(2))
             s.spawn(None, unsol_body, name='env-unsolicited')
+        if cfg.get('driver_fault', True) or cfg.get('unsol'):
+            # the environment threads park themselves (as lazy threads, one deviation to fire them at any later point)
+            # before the application does anything: a fault can then land inside open_link itself
+            ex.freeze()
+            s.sleep(1e-6, 'let.env.park')
+            ex.frozen = False
+            s.frozen = False
         if cfg['flavour'] == 'cf':
             ex.log('call', 'open_link')
             try:
@@ -390,7 +397,15 @@ def _judge(p, cfg, devs, ex, info, dev):
             i0, e0 = late[0]
             by = e0[3].split(':')[0]
             inflight = by == '_IncomingPacketHandler'
-            viol('progress_after_disconnected:%s:by%s' % ('+'.join(e[2] for _, e in late), by), 'callbacks %r' % (names1,))
+            # how did the dispatcher come by the packet it is still handling?  'inflight': it had taken it before the
+            # disconnect began (the known finding: dispatch is not excluded from teardown); otherwise it took it from
+            # the link afterwards
+            how = ''
+            if inflight:
+                rxs = [i for i, e in enumerate(ev1) if e[1] == 'rx' and i < i0]
+                how = ':inflight' if rxs and rxs[-1] < di else ':taken_after_disconnect_began'
+            viol('progress_after_disconnected:%s:by%s%s' % ('+'.join(e[2] for _, e in late), by, how),
+                 'callbacks %r' % (names1,))
     # (4b) reached disconnected
     st = info.get('state1')
     if st is not None:
